@@ -529,7 +529,9 @@ fn run_e2e(line: &str) -> String {
     let mut builder_time = String::new();
     for (tok, flag, var) in [("maxs", "--max-time", "DIVAN_MAX_TIME"), ("mins", "--min-time", "DIVAN_MIN_TIME")] {
         if get(tok) != "-" {
-            if get("tvia") == "builder" {
+            if get("tvia") == "attr" {
+                // the limit is written in the benchmark's attribute: nothing to pass
+            } else if get("tvia") == "builder" {
                 builder_time.push_str(&format!(";{}={}", if tok == "maxs" { "max_time" } else { "min_time" }, get(tok)));
             } else if tenv {
                 cmd.env(var, get(tok));
@@ -859,8 +861,21 @@ fn run_fig(line: &str) -> String {
     format!("samples={} iters={}", st.sample_count, st.iter_count)
 }
 
+/// C04, seconds given as plain numbers (attribute `min_time = ..` / `max_time = ..`): `u=<u64>` or `f=<decimal>`
+/// through `divan::__private::IntoDuration`; prints the resulting `secs:nanos`.
+fn run_dur(line: &str) -> String {
+    use divan::__private::IntoDuration;
+    let d = match line.split_once('=') {
+        Some(("u", v)) => v.parse::<u64>().expect("u64").into_duration(),
+        Some(("f", v)) => v.parse::<f64>().expect("f64").into_duration(),
+        _ => panic!("bad case {line}"),
+    };
+    format!("{}:{}", d.as_secs(), d.subsec_nanos())
+}
+
 fn dispatch(mode: &str, line: &str) -> String {
     match mode {
+        "c04dur" => run_dur(line),
         "c03fig" => run_fig(line),
         "c03e2e" | "c04cli" | "c04os" | "c19cli" | "c04ev" | "c04cal" => run_e2e(line),
         "c03" | "c04" | "c19" | "loop" => run_case(line),
